@@ -29,6 +29,124 @@ set_option linter.unusedSimpArgs false
 namespace HtmlVerif.SrcTie
 open HtmlVerif HtmlVerif.Py HtmlVerif.Generated.Src
 
+/-! ### the normalisation functions of area C14 on already-normalised children
+
+Stated at the level of Python values: on a sequence whose items are plain tag nodes (`plainC11`) or TagLists of such
+(`kidItemsC11`), the regenerated `_flatten_recurse`, `flatten`, `_tagchilds_to_tagnodes`, `TagList.insert / extend / append`
+"unnest one level" (`kidFlatC11`).  This is what every call made by the C11 functions meets; the general case (None,
+numbers, deeper nesting, TypeError) is Props/SrcC14.lean on that area's own embedding. -/
+
+theorem flatten_recurse_plainC11 (h : util_flatten_recurse_available = true) (G : Globals) (fuel : Nat) (X : PVal)
+    (xs acc : List PVal) (hX : pyIter X = .ok xs) (hp : ∀ x ∈ xs, plainC11 x = true) :
+    util_flatten_recurse G (fuel + 1) X (.list acc) = .ok (.list (acc ++ xs)) := by
+  first
+  | exact absurd h (by decide)
+  | rw [util_flatten_recurse]
+    simp only [pure_eq_ok, truthy_bool, hX, ok_bind]
+    refine app_loop_kC11 xs (fun c => [c]) acc _ _ ?step _ _ ?k
+    case k => intro s hs; rw [hs]; simp
+    case step =>
+      intro c hc s b hs
+      obtain ⟨s1, s2⟩ := s
+      simp only at hs; subst hs
+      have hf := plainC11_facts (hp c hc)
+      simp [isInstance_cons2, hf.notList, hf.notTuple, hf.notTL, hf.notNone, pyListAppend_list]
+
+theorem flatten_recurse_kidsC11 (h : util_flatten_recurse_available = true) (G : Globals) (fuel : Nat) (X : PVal)
+    (xs acc : List PVal) (hX : pyIter X = .ok xs) (hp : ∀ x ∈ xs, (kidItemsC11 x).isSome = true) :
+    util_flatten_recurse G (fuel + 2) X (.list acc) = .ok (.list (acc ++ xs.flatMap kidFlatC11)) := by
+  first
+  | exact absurd h (by decide)
+  | rw [util_flatten_recurse]
+    simp only [pure_eq_ok, truthy_bool, hX, ok_bind]
+    refine app_loop_kC11 xs kidFlatC11 acc _ _ ?step _ _ ?k
+    case k => intro s hs; rw [hs]
+    case step =>
+      intro c hc s b hs
+      obtain ⟨s1, s2⟩ := s
+      simp only at hs; subst hs
+      obtain ⟨items, hi⟩ := Option.isSome_iff_exists.mp (hp c hc)
+      have hkf : kidFlatC11 c = items := by simp [kidFlatC11, hi]
+      rcases kidItems_casesC11 hi with ⟨hpl, rfl⟩ | ⟨_, fs, rfl, hd, hall⟩
+      · have hf := plainC11_facts hpl
+        simp [isInstance_cons2, hf.notList, hf.notTuple, hf.notTL, hf.notNone, pyListAppend_list, hkf]
+      · have hit : pyIter (.obj "TagList" fs) = .ok items := by
+          simp [pyIter, find_of_fieldGet _ _ _ hd]
+        have hrec := flatten_recurse_plainC11 h G fuel (.obj "TagList" fs) items b hit hall
+        have hinst : isInstance (.obj "TagList" fs) ["list", "tuple", "TagList"] = true := by
+          simp [isInstance]
+        simp only [hinst, if_true, hrec, ok_bind, hkf]
+        exact ⟨_, rfl, rfl⟩
+
+theorem is_tag_node_plainC11 (hn : is_tag_node_available = true) (G : Globals) (v : PVal) (hp : plainC11 v = true) :
+    is_tag_node G v = .ok (.bool true) := by
+  first
+  | exact absurd hn (by decide)
+  | unfold is_tag_node
+    have hf := (plainC11_facts hp).node
+    simp only [Bool.or_eq_true] at hf
+    simp only [pure_eq_ok, isInstance_cons2]
+    congr 2
+    rcases hf with (((hf | hf) | hf) | hf) | hf <;> simp [hf]
+
+theorem tagchilds_kidsC11 (h : tagchilds_to_tagnodes_available = true) (hf' : util_flatten_available = true)
+    (hr' : util_flatten_recurse_available = true) (hn : is_tag_node_available = true) (G : Globals) (fuel : Nat) (X : PVal)
+    (xs : List PVal) (hX : pyIter X = .ok xs) (hs : isInstance X ["str"] = false)
+    (hp : ∀ x ∈ xs, (kidItemsC11 x).isSome = true) :
+    tagchilds_to_tagnodes G (fuel + 4) X = .ok (.list (xs.flatMap kidFlatC11)) := by
+  first
+  | exact absurd h (by decide)
+  | exact absurd hf' (by decide)
+  | rw [tagchilds_to_tagnodes]
+    simp only [pure_eq_ok, truthy_bool, hs, Bool.false_eq_true, if_false]
+    have hfl : util_flatten G (fuel + 3) X = .ok (.list (xs.flatMap kidFlatC11)) := by
+      rw [util_flatten]
+      simp only [pure_eq_ok, ok_bind, flatten_recurse_kidsC11 hr' G fuel X xs [] hX hp, List.nil_append]
+    obtain ⟨E, hE, hmem⟩ := pyEnumerate_listC11 (xs.flatMap kidFlatC11)
+    simp only [hfl, ok_bind, hE, pyIter_list]
+    refine keep_loop_kC11 E _ _ _ ?step _ _ ?k
+    case k => intro s hs'; rw [hs']
+    case step =>
+      intro c hc s hs'
+      obtain ⟨i, x, rfl, hx⟩ := hmem c hc
+      have hpl := kidFlat_plainC11 xs hp x hx
+      have hf := plainC11_facts hpl
+      simp [isInstance_cons2, hf.notInt, hf.notFloat, is_tag_node_plainC11 hn G x hpl, hs']
+
+theorem TagList_insert_kidC11 (h : TagList_insert_available = true) (ht : tagchilds_to_tagnodes_available = true)
+    (hf' : util_flatten_available = true) (hr' : util_flatten_recurse_available = true) (hn : is_tag_node_available = true)
+    (G : Globals) (fuel : Nat) (ds : List PVal) (i : Int) (x : PVal) (hx : (kidItemsC11 x).isSome = true) :
+    TagList_insert G (fuel + 5) (tagListOf ds) (.int i) x
+      = .ok (tagListOf (ds.take (HtmlVerif.clampIdx ds.length i) ++ kidFlatC11 x ++ ds.drop (HtmlVerif.clampIdx ds.length i))) := by
+  first
+  | exact absurd h (by decide)
+  | rw [TagList_insert]
+    have key := tagchilds_kidsC11 ht hf' hr' hn G fuel (.list [x]) [x] rfl (by simp [isInstance, builtinClasses])
+      (by intro y hy; simp at hy; subst hy; exact hx)
+    simp only [pure_eq_ok, key, ok_bind, tagListOf, userListSliceInsert_tl, List.flatMap_cons, List.flatMap_nil, List.append_nil]
+
+theorem TagList_extend_kidsC11 (h : TagList_extend_available = true) (ht : tagchilds_to_tagnodes_available = true)
+    (hf' : util_flatten_available = true) (hr' : util_flatten_recurse_available = true) (hn : is_tag_node_available = true)
+    (G : Globals) (fuel : Nat) (ds : List PVal) (X : PVal) (xs : List PVal) (hX : pyIter X = .ok xs)
+    (hs : isInstance X ["str"] = false) (hp : ∀ x ∈ xs, (kidItemsC11 x).isSome = true) :
+    TagList_extend G (fuel + 5) (tagListOf ds) X = .ok (tagListOf (ds ++ xs.flatMap kidFlatC11)) := by
+  first
+  | exact absurd h (by decide)
+  | rw [TagList_extend]
+    simp only [pure_eq_ok, tagchilds_kidsC11 ht hf' hr' hn G fuel X xs hX hs hp, ok_bind, tagListOf, userListExtend_tl]
+
+theorem TagList_append_kidsC11 (h : TagList_append_available = true) (he : TagList_extend_available = true)
+    (ht : tagchilds_to_tagnodes_available = true)
+    (hf' : util_flatten_available = true) (hr' : util_flatten_recurse_available = true) (hn : is_tag_node_available = true)
+    (G : Globals) (fuel : Nat) (ds : List PVal) (x : PVal) (rest : List PVal)
+    (hp : ∀ y ∈ x :: rest, (kidItemsC11 y).isSome = true) :
+    TagList_append G (fuel + 6) (tagListOf ds) x (.tuple rest) = .ok (tagListOf (ds ++ (x :: rest).flatMap kidFlatC11)) := by
+  first
+  | exact absurd h (by decide)
+  | rw [TagList_append]
+    simp only [pure_eq_ok, pyIter_tuple, ok_bind, List.singleton_append,
+      TagList_extend_kidsC11 he ht hf' hr' hn G fuel ds (.list (x :: rest)) (x :: rest) rfl (by simp [isInstance, builtinClasses]) hp]
+
 /-! ### `TagAttrDict.__init__` -/
 
 /-- `TagAttrDict(*args, **kwargs)` as the source has it (`super().__init__(); self.update(*args, **kwargs)`) = `attrsUpdate`
